@@ -2,6 +2,7 @@
 from __future__ import annotations
 
 import re
+import os
 from typing import Any, Dict, List
 
 from harness import gen as G
@@ -19,14 +20,53 @@ _COMM = re.compile(r"^nccl.*Kernel")
 
 
 def gen(rng, tier, no, wide=False):
-    return CP.gen_cp_case(rng)
+    case = CP.gen_cp_case(rng)
+    # sub-microsecond stream: HTA_DISABLE_NS_ROUNDING=1 with dyadic fractional times (multiples of 1/8 us). The graph
+    # model is integer-time, so only the conservation clause (rows = critical edges, durations add up to the path's
+    # weight) is decided there, directly on the implementation's numbers
+    case["params"]["frac"] = rng.random() < 0.12
+    return case
 
 
 def wf(case) -> bool:
     return CP.wf_cp(case)
 
 
+def _observe_frac(case):
+    import copy
+    c2 = copy.deepcopy(case)
+    for ev in c2["ranks"].values():
+        for e in ev:
+            if "ts" in e:
+                e["ts"] = e["ts"] / 8.0
+            if "dur" in e:
+                e["dur"] = e["dur"] / 8.0
+    os.environ["HTA_DISABLE_NS_ROUNDING"] = "1"
+    try:
+        ta, files, g, ok = CP.run_cp(c2)
+    except Exception as e:  # noqa: BLE001  (the integer-only helpers of the harness)
+        return {"rows": [], "waits": [], "canon": {"ok": "frac: " + C.exc_name(e)}}
+    finally:
+        os.environ.pop("HTA_DISABLE_NS_ROUNDING", None)
+    try:
+        canon: Dict[str, Any] = {"ok": ok, "frac": None}
+        if g is not None and ok is True:
+            crit = list(zip(g.critical_path_nodes, g.critical_path_nodes[1:]))
+            tolerated = any(g.edges[u, v]["object"].weight != g.edges[u, v]["weight"] for u, v in crit)
+            try:
+                bd = g.get_critical_path_breakdown()
+                canon["frac"] = {"n_rows": int(len(bd)), "n_crit": len(crit), "sum_rows_x8": float(bd["duration"].sum()) * 8,
+                                 "path_weight_x8": float(sum(g.edges[u, v]["weight"] for u, v in crit)) * 8, "tolerated_negative": bool(tolerated)}
+            except Exception as e:  # noqa: BLE001
+                canon["frac"] = {"raises": C.exc_name(e) + ": " + str(e)[:100]}
+        return {"rows": [], "waits": [], "canon": canon}
+    finally:
+        htaio.remove_case_dir(files)
+
+
 def observe(case):
+    if case["params"].get("frac"):
+        return _observe_frac(case)
     ta, files, g, ok = CP.run_cp(case)
     try:
         rows = htaio.rows_of(ta.t, case["params"]["rank"])
@@ -96,6 +136,16 @@ def compare(obs, mod) -> List[str]:
 
 def oracle(case, obs) -> List[str]:
     c = obs["canon"]
+    if case["params"].get("frac"):
+        f = c.get("frac")
+        if not f or "raises" in f or f["tolerated_negative"]:
+            return []          # no breakdown, or negative weights the tool tolerates and zeroes: outside what is decided here
+        out = []
+        if f["n_rows"] != f["n_crit"]:
+            out.append(f"sub-microsecond trace: {f['n_rows']} breakdown rows for {f['n_crit']} critical edges")
+        if abs(f["sum_rows_x8"] - f["path_weight_x8"]) > 1e-6:
+            out.append(f"sub-microsecond trace: breakdown durations add up to {f['sum_rows_x8'] / 8}, the path weighs {f['path_weight_x8'] / 8}")
+        return out
     if "breakdown_raises" in c:
         return [f"breakdown raised {c['breakdown_raises']}"]
     out: List[str] = []
@@ -162,6 +212,9 @@ def features(case, obs):
         for k in ("cpu_bound", "gpu_compute_bound", "gpu_communication_bound", "gpu_kernel_kernel_overhead", "gpu_kernel_launch_overhead"):
             f["bb_" + k] = int(any(r[3] == k for r in c["breakdown"]))
         f["rows"] = len(c["breakdown"])
+    if c.get("frac") and "raises" not in c["frac"]:
+        f["sub_microsecond_conservation_checked"] = int(not c["frac"]["tolerated_negative"])
+        f["rows"] = c["frac"]["n_rows"]
     return f
 
 
